@@ -109,6 +109,8 @@ def elements(I, s, it):
     if not isinstance(it, IterV):
         return None
     N = I.loops.count_of(s, it.seq)
+    if N is not None:
+        N = N - it.pos          # the elements still to come (an iterator built with skip(..) starts further in)
     if N is None:
         return None
     K = Lin.atom(("k", I.fresh("k")))
